@@ -32,9 +32,7 @@ def parse_int_spec(spec):
         raise Unsupported(f"format spec {spec!r} for a symbolic integer")
     width = int(m.group("width")) if m.group("width") else 0
     zero = bool(m.group("zero"))
-    if width > 1 and not zero:
-        raise Unsupported(f"space-padded format spec {spec!r}")
-    return width, m.group("type")
+    return width, m.group("type"), zero
 
 
 def concat(I, parts):
@@ -153,16 +151,22 @@ def str_value(I, val, node=None):
 def int_part_info(I, part):
     """(digits_only: bool, min_len, max_len|None) for an ('int', sv, spec) part under the current pc."""
     _, sv, spec = part
-    width, typ = parse_int_spec(spec)
+    width, typ, zero = parse_int_spec(spec)
     t = sv.t
     nonneg = I.ctx.entails(t >= 0)
+    if width > 1 and not zero and not I.ctx.entails(t >= 10 ** (width - 1)):
+        # right-aligned with spaces: not a digits-only string (int() still accepts the leading blanks)
+        if typ == "g" and not I.ctx.entails(z3.And(t > -10**6, t < 10**6)):
+            raise Unsupported("'g' format of an integer not proved to be below 10**6 (scientific notation)")
+        I.ctx.note_assumption(ASSUMED[0])
+        return "padded", width, None
     if typ == "g":
         # scientific notation from 10**6 (precision 6)
         if not I.ctx.entails(z3.And(t > -10**6, t < 10**6)):
             raise Unsupported("'g' format of an integer not proved to be below 10**6 (scientific notation)")
     I.ctx.note_assumption(ASSUMED[0] if typ or width else ASSUMED[1])
     if not nonneg:
-        return False, 1, None
+        return "", 1, None          # falsy: signed numeral, no blanks
     lo = max(width, 1)
     hi = None
     for k in range(1, 19):
@@ -250,12 +254,15 @@ def to_z3_string(I, s):
             if key not in cache:
                 v = z3.String(I.ctx.fresh_name("fmt"))
                 cache[key] = v
-                if digits:
+                if digits is True:
                     rex = z3.Loop(digit_re(), lo, hi) if hi is not None else z3.Concat(z3.Loop(digit_re(), lo, lo), z3.Star(digit_re()))
                     I.ctx.assume(z3.InRe(v, rex))
                     I.ctx.assume(z3.Length(v) >= lo)
                     if hi is not None:
                         I.ctx.assume(z3.Length(v) <= hi)
+                elif digits == "padded":
+                    I.ctx.assume(z3.InRe(v, z3.Concat(z3.Star(z3.Re(" ")), z3.Option(z3.Re("-")), z3.Plus(digit_re()))))
+                    I.ctx.assume(z3.Length(v) >= lo)
                 else:
                     I.ctx.assume(z3.InRe(v, z3.Concat(z3.Option(z3.Re("-")), z3.Plus(digit_re()))))
             terms.append(cache[key])
@@ -271,7 +278,7 @@ def _parts(s):
 
 
 def _digits_only(I, part):
-    return int_part_info(I, part)[0]
+    return int_part_info(I, part)[0] is True
 
 
 def _sep_safe(I, s, sep):
@@ -325,9 +332,15 @@ def method(I, s, name, node):
             parts[0] = parts[0].lstrip(chars)
         if parts and isinstance(parts[-1], str) and name in ("strip", "rstrip"):
             parts[-1] = parts[-1].rstrip(chars)
-        for p in (parts[0], parts[-1]):
+        for idx in (0, -1):
+            p = parts[idx]
             if isinstance(p, tuple) and p[0] not in ("int",):
                 raise Unsupported("strip with opaque end part")
+            if isinstance(p, tuple) and int_part_info(I, p)[0] == "padded":
+                if chars is not None or (idx == -1 and name == "lstrip") or (idx == 0 and name == "rstrip" and len(parts) > 1):
+                    raise Unsupported("strip of a blank-padded number with explicit chars")
+                if idx == 0 or len(parts) == 1:
+                    parts[idx] = ("int", p[1], "")      # leading blanks removed
         return concat(I, parts)
 
     def removeprefix(args, kwargs):
@@ -436,7 +449,7 @@ def length(I, s):
             total += len(p)
         elif p[0] == "int":
             digits, lo, hi = int_part_info(I, p)
-            if digits and hi is not None and lo == hi:
+            if digits is True and hi is not None and lo == hi:
                 total += lo
             else:
                 sym.append(z3.Length(to_z3_string(I, SStr([p]))))
